@@ -7,7 +7,8 @@ from vlib.driver import Outcome, Sub
 from vlib import shim as shimmod
 
 LEVEL = "exploration"
-RULE = ("generated: one wake-capable field, single bunch at bucket 0, n in 8..64, transform length N from the pool "
+RULE = ("generated: one wake-capable field, single bunch at bucket 0 (two cases in three) or a train of 2-3 bunches with "
+        "their own profiles at bucket*spacing incl. empty buckets (per-bunch power against the wake of that bunch alone), n in 8..64, transform length N from the pool "
         "(even, odd, prime, power of two; N >= n), passive impedance (free space, parallel plates, resistive wall, "
         "collimator, factory sums, random passive samples), arbitrary profile (non-negative or signed).  Oracle: "
         "Parseval relation between getCSRPower() and sum(profile * unscaled padded wake) with the zero-frequency and "
@@ -44,91 +45,118 @@ def impedance(s, r, case, N):
     return s.imp_array(z.astype(np.complex64), fmax)
 
 
+def make_profile(r, n, kind):
+    if kind == "pos":
+        return (r.random(n) ** 2).astype(np.float32)
+    if kind == "gauss":
+        x = np.arange(n)
+        return np.exp(-0.5 * ((x - n * r.uniform(0.3, 0.7)) / (n * r.uniform(0.03, 0.2))) ** 2).astype(np.float32)
+    return r.standard_normal(n).astype(np.float32)
+
+
 def run_case(case):
     s = S()
     n, N = case["n"], case["N"]
+    buckets, spacing = case.get("buckets", [0]), case.get("spacing", 0)
+    nb = len(buckets)
     r = gen.rng(case["dseed"])
-    s.reset(n, 1)
+    s.reset(n, nb)
     L = case["L"]
-    ps = s.ps_new(-L, L, -L, L, qscale=case["sigma_z"], pscale=6e5, current=case["Ib"])
-    if case["pkind"] == "pos":
-        prof = (r.random(n) ** 2).astype(np.float32)
-    elif case["pkind"] == "gauss":
-        x = np.arange(n)
-        prof = np.exp(-0.5 * ((x - n * r.uniform(0.3, 0.7)) / (n * r.uniform(0.03, 0.2))) ** 2).astype(np.float32)
-    else:
-        prof = r.standard_normal(n).astype(np.float32)
-    s.ps_set_projection(ps, 0, 0, prof)
+    ps = s.ps_new(-L, L, -L, L, qscale=case["sigma_z"], pscale=6e5, current=case["Ib"], filling=np.full(nb, 1.0 / nb, np.float32))
+    profs = [make_profile(r, n, case["pkind"]) for _ in range(nb)]
     imp = impedance(s, r, case, N)
     Z = s.imp_data(imp).astype(np.complex128)
     if not np.isfinite(Z).all():
         return Outcome(True, False, ["nonfinite_Z"], discard=True)
-    ef = s.ef_wake(ps, imp, [0], 0, case["frev"], 1e-3, case["Ib"], 1.3e9, 4.7e-4, 1e-10)
-    # earlier requests on the same object (other profile, a cutoff) must not matter for "one and the same profile"
+    ef = s.ef_wake(ps, imp, buckets, spacing, case["frev"], 1e-3, case["Ib"], 1.3e9, 4.7e-4, 1e-10)
+    # earlier requests on the same object (other profiles, a cutoff) must not matter for "one and the same profile"
     for op in case.get("prelude", []):
-        s.ps_set_projection(ps, 0, 0, (r.random(n) * 3).astype(np.float32))
+        for b in range(nb):
+            s.ps_set_projection(ps, 0, b, (r.random(n) * 3).astype(np.float32))
         s.ef_do(ef, op[0], op[1] if len(op) > 1 else 0.0)
-    s.ps_set_projection(ps, 0, 0, prof)
+    for b in range(nb):
+        s.ps_set_projection(ps, 0, b, profs[b])
+    # all bunches present: wake request first (it fills the shared padded buffer), then the spectrum
     s.ef_do(ef, "wake")
-    w = s.ef_get(ef, "padded_wake").astype(np.float64)
+    w_all = s.ef_get(ef, "padded_wake").astype(np.float64)
     s.ef_do(ef, "csr", 0.0)
-    spec0 = s.ef_get(ef, "csr_spectrum")[0].copy()
-    P0 = float(s.ef_get(ef, "csr_power")[0])
+    spec_all = s.ef_get(ef, "csr_spectrum").copy()
+    P_all = s.ef_get(ef, "csr_power").astype(np.float64).copy()
     info = s.ef_info(ef)
-    cls = ["z_" + case["zkind"], gen.nclass(N), "p_" + case["pkind"], "prelude" if case.get("prelude") else "fresh"]
-    rho = np.zeros(N)
-    rho[:n] = prof.astype(np.float64)
-    kk = np.arange(N // 2 + 1)
-    F = np.exp(-2j * np.pi * np.outer(kk, np.arange(N)) / N) @ rho
-    terms = Z.real[:N // 2 + 1] * np.abs(F) ** 2
-    total = np.abs(terms).sum()
-    inner = np.abs(terms[1:N // 2]).sum()
-    # rounding scale: the reactive part enters the wake too and cancels only in exact arithmetic
-    mag = (np.abs(Z[:N // 2 + 1]) * np.abs(F) ** 2).sum()
-    # the wake entering the right-hand side comes out of a float FFT pipeline: per-cell error <= 3e-6 * B (see C06),
-    # B = sum_k m_k |Z_k| (|F_k| + 0.3 ||rho||_2); summed against the profile that is <= ||rho||_1 * 3e-6 * B
-    mk = np.full(N // 2 + 1, 2.0)
-    mk[0] = 1.0
-    B = (mk * np.abs(Z[:N // 2 + 1]) * (np.abs(F) + 0.3 * np.sqrt((rho * rho).sum())))[:max(1, N // 2)].sum()
-    tolabs = 0.5 * np.abs(rho).sum() * 3e-6 * B + 1e-5 * mag + 1e-300
-    nontriv = bool(total > 0 and inner >= 0.1 * total and total >= 100 * tolabs)
-    met = {}
-    # exact non-negativity
-    if (Z.real >= 0).all():
-        if (spec0 < 0).any() or not np.isfinite(spec0).all():
-            i = int(np.argwhere(~(spec0 >= 0))[0][0])
-            return Outcome(False, nontriv, cls, "CSR spectrum negative/non-finite at bin %d: %r (Re Z = %r)" % (i, float(spec0[i]), Z.real[i]), sig="c07:spec_negative")
-        if not P0 >= 0:
-            return Outcome(False, nontriv, cls, "CSR power negative: %r" % P0, sig="c07:power_negative")
+    cls = ["z_" + case["zkind"], gen.nclass(N), "p_" + case["pkind"], "prelude" if case.get("prelude") else "fresh", "nb%d" % nb]
+    if nb > 1:
+        cls.append("gaps" if max(buckets) >= nb else "contiguous")
     dq = float(np.float32(np.float32(2 * L) / np.float32(n - 1)))
     df = info["fdelta"]
-    lhs = P0 / (df * dq * dq) - 0.5 * terms[0] - terms[N // 2]
-    rhs = 0.5 * float((rho * w).sum())
-    err = abs(lhs - rhs) / (mag + 1e-300)
-    met["parseval_err_over_tol"] = abs(lhs - rhs) / tolabs
-    if abs(lhs - rhs) > tolabs:
-        return Outcome(False, nontriv, cls, "CSR power/(df*dq^2) minus DC and top-bin terms = %.8g, half of sum(profile*wake) = %.8g (rel %.3g of sum |Z||F|^2; n=%d N=%d Z=%s)" %
-                       (lhs, rhs, err, n, N, case["zkind"]), sig="c07:parseval", metrics=met)
-    # spectrum itself: dq^2 * Re Z * |F|^2 at every bin below N/2 (reference DFT)
-    ref = dq * dq * terms
-    se = np.abs(spec0[:N // 2 + 1] - ref).max() / (dq * dq * (np.abs(Z.real[:N // 2 + 1]).max() * (np.abs(F) ** 2).max()) + 1e-33)   # 1e-33: denormal results carry only a few bits
-    met["spectrum_rel"] = se
-    if se > 1e-4:
-        return Outcome(False, nontriv, cls, "CSR spectrum differs from dq^2 Re Z |F|^2 by %.3g of its maximum" % se, sig="c07:spectrum", metrics=met)
-    if (spec0[N // 2 + 1:] != 0).any():
-        return Outcome(False, nontriv, cls, "CSR spectrum non-zero above N/2", sig="c07:spectrum_upper", metrics=met)
+    kk = np.arange(N // 2 + 1)
+    E = np.exp(-2j * np.pi * np.outer(kk, np.arange(n)) / N)
+    met = {}
+    nontriv_any = False
+    for b in range(nb):
+        prof = profs[b]
+        spec0, P0 = spec_all[b], float(P_all[b])
+        off = buckets[b] * spacing
+        if nb == 1:
+            w = w_all
+        else:
+            # the wake of this bunch alone ("one and the same profile"): the other buckets emptied
+            for c in range(nb):
+                s.ps_set_projection(ps, 0, c, prof if c == b else np.zeros(n, np.float32))
+            s.ef_do(ef, "wake")
+            w = s.ef_get(ef, "padded_wake").astype(np.float64)
+        rho = prof.astype(np.float64)
+        F = E @ rho
+        terms = Z.real[:N // 2 + 1] * np.abs(F) ** 2
+        total = np.abs(terms).sum()
+        inner = np.abs(terms[1:N // 2]).sum()
+        # rounding scale: the reactive part enters the wake too and cancels only in exact arithmetic
+        mag = (np.abs(Z[:N // 2 + 1]) * np.abs(F) ** 2).sum()
+        # the wake entering the right-hand side comes out of a float FFT pipeline: per-cell error <= 3e-6 * B (see C06),
+        # B = sum_k m_k |Z_k| (|F_k| + 0.3 ||rho||_2); summed against the profile that is <= ||rho||_1 * 3e-6 * B
+        mk = np.full(N // 2 + 1, 2.0)
+        mk[0] = 1.0
+        B = (mk * np.abs(Z[:N // 2 + 1]) * (np.abs(F) + 0.3 * np.sqrt((rho * rho).sum())))[:max(1, N // 2)].sum()
+        tolabs = 0.5 * np.abs(rho).sum() * 3e-6 * B + 1e-5 * mag + 1e-300
+        nontriv = bool(total > 0 and inner >= 0.1 * total and total >= 100 * tolabs)
+        nontriv_any = nontriv_any or nontriv
+        where = "bunch %d of %d (buckets %s, spacing %d): " % (b, nb, buckets, spacing) if nb > 1 else ""
+        # exact non-negativity
+        if (Z.real >= 0).all():
+            if (spec0 < 0).any() or not np.isfinite(spec0).all():
+                i = int(np.argwhere(~(spec0 >= 0))[0][0])
+                return Outcome(False, nontriv, cls, where + "CSR spectrum negative/non-finite at bin %d: %r (Re Z = %r)" % (i, float(spec0[i]), Z.real[i]), sig="c07:spec_negative")
+            if not P0 >= 0:
+                return Outcome(False, nontriv, cls, where + "CSR power negative: %r" % P0, sig="c07:power_negative")
+        lhs = P0 / (df * dq * dq) - 0.5 * terms[0] - terms[N // 2]
+        rhs = 0.5 * float((rho * w[off:off + n]).sum())
+        err = abs(lhs - rhs) / (mag + 1e-300)
+        met["parseval_err_over_tol"] = max(met.get("parseval_err_over_tol", 0), abs(lhs - rhs) / tolabs)
+        if abs(lhs - rhs) > tolabs:
+            return Outcome(False, nontriv, cls, where + "CSR power/(df*dq^2) minus DC and top-bin terms = %.8g, half of sum(profile*wake) = %.8g (rel %.3g of sum |Z||F|^2; n=%d N=%d Z=%s)" %
+                           (lhs, rhs, err, n, N, case["zkind"]), sig="c07:parseval", metrics=met)
+        # spectrum itself: dq^2 * Re Z * |F|^2 at every bin below N/2 (reference DFT)
+        ref = dq * dq * terms
+        se = np.abs(spec0[:N // 2 + 1] - ref).max() / (dq * dq * (np.abs(Z.real[:N // 2 + 1]).max() * (np.abs(F) ** 2).max()) + 1e-33)   # 1e-33: denormal results carry only a few bits
+        met["spectrum_rel"] = max(met.get("spectrum_rel", 0), se)
+        if se > 1e-4:
+            return Outcome(False, nontriv, cls, where + "CSR spectrum differs from dq^2 Re Z |F|^2 by %.3g of its maximum" % se, sig="c07:spectrum", metrics=met)
+        if (spec0[N // 2 + 1:] != 0).any():
+            return Outcome(False, nontriv, cls, where + "CSR spectrum non-zero above N/2", sig="c07:spectrum_upper", metrics=met)
+    nontriv = nontriv_any
+    for b in range(nb):
+        s.ps_set_projection(ps, 0, b, profs[b])
     # cutoff: smaller, non-negative, monotone
     fcs = sorted(case["cutoffs"])
-    prevP, prevS = P0, spec0
+    prevP, prevS = P_all.copy(), spec_all
     for fc in fcs:
         s.ef_do(ef, "csr", fc)
-        sp = s.ef_get(ef, "csr_spectrum")[0].copy()
-        Pc = float(s.ef_get(ef, "csr_power")[0])
-        if (Z.real >= 0).all() and ((sp < 0).any() or not Pc >= 0):
-            return Outcome(False, nontriv, cls, "with cutoff %g the CSR power/spectrum is negative (P=%r)" % (fc, Pc), sig="c07:cutoff_negative", metrics=met)
+        sp = s.ef_get(ef, "csr_spectrum").copy()
+        Pc = s.ef_get(ef, "csr_power").astype(np.float64).copy()
+        if (Z.real >= 0).all() and ((sp < 0).any() or not (Pc >= 0).all()):
+            return Outcome(False, nontriv, cls, "with cutoff %g the CSR power/spectrum is negative (P=%r)" % (fc, Pc.tolist()), sig="c07:cutoff_negative", metrics=met)
         if (Z.real >= 0).all():
-            if Pc > prevP * (1 + 1e-6) + 1e-37 or (sp > prevS * (1 + 1e-6) + 1e-37).any():
-                return Outcome(False, nontriv, cls, "raising the cutoff frequency to %g increases the CSR power: %r -> %r" % (fc, prevP, Pc), sig="c07:cutoff_monotone", metrics=met)
+            if (Pc > prevP * (1 + 1e-6) + 1e-37).any() or (sp > prevS * (1 + 1e-6) + 1e-37).any():
+                return Outcome(False, nontriv, cls, "raising the cutoff frequency to %g increases the CSR power: %r -> %r" % (fc, prevP.tolist(), Pc.tolist()), sig="c07:cutoff_monotone", metrics=met)
         prevP, prevS = Pc, sp
     if fcs:
         cls.append("cutoff")
@@ -146,7 +174,13 @@ def cases(draw):
     if zk in ("plates", "factory"):
         N = min(N, 200)
         n = min(n, N)
-    return dict(n=n, N=N, dseed=draw(gen.seeds()), zkind=zk, pkind=draw(st.sampled_from(["pos", "gauss", "signed"])),
+    layout = {}
+    if draw(st.integers(0, 2)) == 0:
+        # a train: 2-3 bunches with their own profiles at bucket*spacing (empty buckets in between allowed)
+        nb = draw(st.integers(2, 3))
+        n, buckets, spacing, N, _ = gen.field_layout(draw, nb, nmin=8, nmax=48, nlimit=200 if zk in ("plates", "factory") else 512)
+        layout = dict(buckets=buckets, spacing=spacing)
+    return dict(layout, n=n, N=N, dseed=draw(gen.seeds()), zkind=zk, pkind=draw(st.sampled_from(["pos", "gauss", "signed"])),
                 L=draw(st.sampled_from([4.0, 6.0])), sigma_z=lg(1e-4, 1e-2), Ib=lg(1e-4, 1e-1),
                 fmax=gen.f32(lg(1e10, 1e13)), frev=gen.f32(lg(1e6, 1e8)), gap=lg(5e-3, 0.1), cond=lg(1e5, 1e8),
                 xi=draw(st.sampled_from([0.0, 0.0, -0.5, 3.0])), collratio=draw(st.floats(0.1, 0.9)),
